@@ -579,6 +579,7 @@ Proof.
   - cbn [fst]. apply step_ok_frame, frame_poll_gone.
   - cbn [fst]. apply step_ok_same; reflexivity.
   - cbn [fst]. apply step_ok_same; reflexivity.
+  - cbn [fst]. apply step_ok_same; reflexivity.
 Qed.
 
 (* ---------- the statements ---------- *)
@@ -644,6 +645,7 @@ Proof.
   - cbn [fst]. apply (fr_rec _ _ (frame_poll_gone c rid) R).
   - cbn [fst]. eapply Rec_same; [| |exact R]; reflexivity.
   - cbn [fst]. eapply Rec_same; [| |exact R]; reflexivity.
+  - cbn [fst]. exact R.
 Qed.
 
 Lemma records_truthful_pf maxw es : Rec (run_state ctl_step (init maxw) es).
